@@ -21,6 +21,11 @@ def main():
     run = Run("C05", "translation_validation", "RX")
     tpls = T.gamma5(tier(), seed())
     results = lemmas.run_templates(run, tpls)
+    from vlib import ch
+    from checks import leafharness
+
+    hs = leafharness.c05_leaves(tier())
+    ch.run_harnesses(run, hs)
     envs = sum(max(1, len([o for o in r["obl"] if o["lemma"] == "AEM"]) // 2) for r in results)
     cov = {
         "programs": len(tpls),
